@@ -408,8 +408,17 @@ fn stamp() -> u64 {
     STAMP.fetch_add(1, Ordering::SeqCst)
 }
 
+/// stamps at which the zoneinfo names index was re-read (hook event), for the offline checker
+static REFRESHES: Mutex<Vec<u64>> = Mutex::new(Vec::new());
+
 static DELAY_SEED: AtomicU64 = AtomicU64::new(0);
 fn delay_callback(id: usize) {
+    if id == 4 {
+        let s = stamp();
+        if let Ok(mut v) = REFRESHES.lock() {
+            v.push(s);
+        }
+    }
     // widen the windows between releasing the read lock and taking the write lock
     if id == 6 || id == 7 || id == 14 {
         let s = DELAY_SEED.fetch_add(0x9E37_79B9_7F4A_7C15, Ordering::Relaxed);
@@ -560,13 +569,14 @@ fn run_concurrent(cx: &mut Ctx, backend: Backend, round: u64, threads: u32, ops_
         cx.nontrivial(hash_mix(round, cx.shard));
         cx.nontrivial(hash_mix(round, cx.shard) ^ 1);
     } else {
-        check_concurrent_history(cx, tag, &case, &evs);
+        let refreshes: Vec<u64> = REFRESHES.lock().map(|v| v.clone()).unwrap_or_default();
+        check_concurrent_history(cx, tag, &case, &evs, &refreshes);
     }
     let _ = std::fs::remove_dir_all(&root);
 }
 
 /// Offline checker of a recorded concurrent history.
-fn check_concurrent_history(cx: &mut Ctx, tag: &str, case: &str, evs: &[Ev]) {
+fn check_concurrent_history(cx: &mut Ctx, tag: &str, case: &str, evs: &[Ev], refreshes: &[u64]) {
     // virtual time bounds as a function of the stamp
     let adv: Vec<(u64, u64, u64)> = evs.iter().filter(|e| e.kind == 3).map(|e| (e.call, e.ret, e.secs)).collect();
     let prefix = |mut pts: Vec<(u64, u64)>| -> (Vec<u64>, Vec<u64>) {
@@ -594,6 +604,27 @@ fn check_concurrent_history(cx: &mut Ctx, tag: &str, case: &str, evs: &[Ev]) {
     };
     let vt_low = |s: u64| at(&low_k, &low_s, s); // advances certainly finished by stamp s
     let vt_high = |s: u64| at(&high_k, &high_s, s); // advances possibly started by stamp s
+    // a names-index re-read starts its lease when it *finishes*: that is no later than the return of the lookup it ran in
+    let mut by_thread: BTreeMap<u32, Vec<(u64, u64)>> = BTreeMap::new();
+    for e in evs.iter().filter(|e| e.kind == 0) {
+        by_thread.entry(e.thread).or_default().push((e.call, e.ret));
+    }
+    for v in by_thread.values_mut() {
+        v.sort();
+    }
+    let leases: Vec<(u64, u64)> = refreshes
+        .iter()
+        .map(|&e| {
+            let mut latest_ret = e;
+            for v in by_thread.values() {
+                let i = v.partition_point(|x| x.0 <= e);
+                if i > 0 && v[i - 1].1 >= e {
+                    latest_ret = latest_ret.max(v[i - 1].1);
+                }
+            }
+            (e, vt_high(latest_ret))
+        })
+        .collect();
     // per name: the sequence of states with [start call, end ret of the next write)
     let mut gets = 0u64;
     let mut order_hash = 0u64;
@@ -644,6 +675,12 @@ fn check_concurrent_history(cx: &mut Ctx, tag: &str, case: &str, evs: &[Ev]) {
                 // state and began while it was still current may have (re)started the clock when it returned
                 let validated_recently = gets_by_value.get(&g.value).map_or(false, |v| v.iter().any(|a| a.call <= end && a.call <= g.ret && vt_low(g.call).saturating_sub(vt_high(a.ret)) <= TTL));
                 if validated_recently {
+                    ok = true;
+                    break;
+                }
+                // "not found" can also be the names index speaking: the index is re-read as a whole on a miss of *any*
+                // name; a re-read that began while this name was absent keeps it invisible for TTL from then on
+                if g.value.is_none() && leases.iter().any(|&(e, lease_vt)| e <= end && e <= g.ret && vt_low(g.call).saturating_sub(lease_vt) <= TTL) {
                     ok = true;
                     break;
                 }
